@@ -595,7 +595,7 @@ pub fn run(report: &mut Report) {
         crate::engine::runner::Tier::Thorough => battery,
     };
     report.enumerate_par("battery", false, quick_battery, check);
-    report.prop("generated", tier.pick(2, 150), case_strategy, check);
+    report.prop("generated", tier.pick(3, 150), case_strategy, check);
     report.set_extra(
         "crash_runs",
         serde_json::json!(CRASH_RUNS.load(std::sync::atomic::Ordering::Relaxed)),
